@@ -44,7 +44,7 @@ func (World) Assumptions(prop string) []string {
 }
 
 func (World) Rule(prop string) string {
-	base := "10-150 steps of update/update-with-empty/delete/get/commit/recreate(older root)/leaves(root)/restart/cold-check over a structured key pool (lengths 0-6 and 32, shared suffixes = shared nibble prefixes, single-byte and empty key, keys that are suffixes of other keys), unique values, maxTrieLevelInMemory 1-8, cache 1-64, read errors armed inside steps; "
+	base := "(thorough tier: a third of the runs have 150-500 steps over a pool of up to 90 keys) 10-150 steps of update/update-with-empty/delete/get/commit/recreate(older root)/leaves(root)/restart/cold-check over a structured key pool (lengths 0-6 and 32, shared suffixes = shared nibble prefixes, single-byte and empty key, keys that are suffixes of other keys), unique values, maxTrieLevelInMemory 1-8, cache 1-64, read errors armed inside steps; "
 	switch prop {
 	case "C01":
 		return base + "non-trivial = at least one commit, one delete of a present key and one leaf enumeration or get after them; distinct = hash of full plan"
